@@ -4,6 +4,7 @@ import (
 	"bytes"
 	"context"
 	"encoding/json"
+	"path/filepath"
 	"strings"
 	"sync"
 
@@ -97,7 +98,7 @@ func realHist(h histCase) []string {
 			colorOutMu.Lock()
 			old := colorOutput()
 			setColorOutput(&lockedBuf{})
-			err := gtree.MkdirFromRoot(get(p[1]), gtree.WithDryRun(), gtree.WithTargetDir("t"))
+			err := gtree.MkdirFromRoot(get(p[1]), gtree.WithDryRun(), gtree.WithTargetDir(filepath.Join(scratch(), "c13-dry-run-target")))
 			setColorOutput(old)
 			colorOutMu.Unlock()
 			res = append(res, "e="+classify(err))
